@@ -1,19 +1,23 @@
     // Unit `store`, Kani job `codec`: the blob header codec of write_blob / read_blob on the REAL std slice functions
     // (extend_from_slice, to_le_bytes, strip_prefix, split_first_chunk, from_le_bytes, to_vec). This text is placed INSIDE
     // `pub mod cache { .. }` next to the extracted items, so private fields and methods are reachable without visibility rewrites.
-    // The file system is a one-file disk held in a thread-local: what atomic_write received is what fs::read delivers.
+    // The file system is a one-file disk held in a static: what atomic_write received is what fs::read delivers.
 
     pub mod env {
-        use std::cell::RefCell;
         use std::path::PathBuf;
-        thread_local! {
-            /// bytes of the single blob file on the stub disk (None = absent / unreadable)
-            pub static DISK: RefCell<Option<Vec<u8>>> = RefCell::new(None);
-            /// what Path::exists answers for the blob path
-            pub static EXISTS: RefCell<bool> = RefCell::new(false);
-            /// number of atomic_write calls seen
-            pub static WRITES: RefCell<u32> = RefCell::new(0);
-        }
+        use std::sync::Mutex;
+        // (statics behind a Mutex: kani-compiler 0.68 crashes on thread_local!)
+        /// bytes of the single blob file on the stub disk (None = absent / unreadable)
+        pub static DISK: Mutex<Option<Vec<u8>>> = Mutex::new(None);
+        /// what Path::exists answers for the blob path
+        pub static EXISTS: Mutex<bool> = Mutex::new(false);
+        /// number of atomic_write calls seen
+        pub static WRITES: Mutex<u32> = Mutex::new(0);
+        pub fn set_disk(v: Option<Vec<u8>>) { *DISK.lock().unwrap() = v; }
+        pub fn disk() -> Option<Vec<u8>> { DISK.lock().unwrap().clone() }
+        pub fn set_exists(b: bool) { *EXISTS.lock().unwrap() = b; }
+        pub fn set_writes(n: u32) { *WRITES.lock().unwrap() = n; }
+        pub fn writes() -> u32 { *WRITES.lock().unwrap() }
         /// O14: content_hash (blake3) -> a fixed 64-digit name (the codec does not depend on it)
         pub fn vp_content_hash(_data: &[u8]) -> String { String::from("ab") }
         /// O4: format!("fragments/{}/{}.frag", &name[..2], name) -> a fixed relative path
@@ -21,17 +25,17 @@
         /// O14: root.join(rel)
         pub fn vp_join(_root: &PathBuf, _rel: &str) -> PathBuf { PathBuf::new() }
         /// O14: path.exists()
-        pub fn vp_exists(_path: &PathBuf) -> bool { EXISTS.with(|e| *e.borrow()) }
+        pub fn vp_exists(_path: &PathBuf) -> bool { *EXISTS.lock().unwrap() }
         /// O14: create_dir_all(parent), result ignored by the code
         pub fn vp_create_parent_dir(_path: &PathBuf) {}
         /// O14: veryl_path::atomic_write(&path, &data): the stub disk now holds exactly `data`
         pub fn vp_atomic_write_blob(_path: &PathBuf, data: &[u8]) -> Result<(), ()> {
-            DISK.with(|d| *d.borrow_mut() = Some(data.to_vec()));
-            WRITES.with(|w| *w.borrow_mut() += 1);
+            set_disk(Some(data.to_vec()));
+            set_writes(writes() + 1);
             Ok(())
         }
         /// O14: fs::read(root.join(rel)).ok()
-        pub fn vp_fs_read(_root: &PathBuf, _rel: &str) -> Option<Vec<u8>> { DISK.with(|d| d.borrow().clone()) }
+        pub fn vp_fs_read(_root: &PathBuf, _rel: &str) -> Option<Vec<u8>> { disk() }
     }
 
     pub mod harness {
@@ -45,30 +49,32 @@
             Store { root: PathBuf::new(), manifest: Manifest::default(), next_files: BTreeMap::new(), on_disk_current: false, _lock: None }
         }
 
-        /// independent statement of the blob file layout: "VFRG", then the schema version as 4 little-endian bytes, then the payload
-        fn expected_file(p: &[u8]) -> Vec<u8> {
-            let mut v = vec![b'V', b'F', b'R', b'G', 2, 0, 0, 0];
-            for b in p { v.push(*b); }
-            v
-        }
-
         /// read_blob(what write_blob wrote) == Some(payload), and what it wrote is header ++ payload; every payload content, length <= 16
+        /// (bytes are compared at a symbolic index i, i.e. for all i)
         #[cfg_attr(kani, kani::proof)]
         #[cfg_attr(kani, kani::unwind(34))]
         pub fn blob_roundtrip() {
             let buf: [u8; MAXP] = kani::any();
             let len: usize = kani::any();
             kani::assume(len <= MAXP);
+            let i: usize = kani::any();
+            kani::assume(i < MAXP);
             let payload = &buf[..len];
             let s = store();
-            DISK.with(|d| *d.borrow_mut() = None);
-            EXISTS.with(|e| *e.borrow_mut() = false);
+            set_disk(None);
+            set_exists(false);
             let rel = s.write_blob(payload);
             assert!(rel.is_some(), "write_blob must succeed when atomic_write succeeds");
-            let on_disk = DISK.with(|d| d.borrow().clone());
-            assert!(on_disk.as_deref() == Some(expected_file(payload).as_slice()), "blob file is not MAGIC ++ le32(SCHEMA_VERSION) ++ payload");
+            let on_disk = disk().unwrap();
+            assert!(on_disk.len() == len + 8, "blob file length is not 8 + payload length");
+            assert!(on_disk[0] == b'V' && on_disk[1] == b'F' && on_disk[2] == b'R' && on_disk[3] == b'G', "blob file does not start with the magic bytes");
+            assert!(on_disk[4] == 2 && on_disk[5] == 0 && on_disk[6] == 0 && on_disk[7] == 0, "schema version is not stored as 4 little-endian bytes");
+            if i < len { assert!(on_disk[8 + i] == payload[i], "payload byte changed in the blob file"); }
             let got = s.read_blob(&rel.unwrap());
-            assert!(got.as_deref() == Some(payload), "read_blob(write_blob(p)) != Some(p)");
+            assert!(got.is_some(), "read_blob(write_blob(p)) is a miss");
+            let got = got.unwrap();
+            assert!(got.len() == len, "read_blob(write_blob(p)) has another length than p");
+            if i < len { assert!(got[i] == payload[i], "read_blob(write_blob(p)) != p"); }
         }
 
         /// an identical existing blob is reused: no write, same relative path returned
@@ -77,11 +83,11 @@
         pub fn blob_reuse_skips_write() {
             let buf: [u8; 4] = kani::any();
             let s = store();
-            WRITES.with(|w| *w.borrow_mut() = 0);
-            EXISTS.with(|e| *e.borrow_mut() = true);
+            set_writes(0);
+            set_exists(true);
             let rel = s.write_blob(&buf);
             assert!(rel.is_some());
-            assert!(WRITES.with(|w| *w.borrow()) == 0, "write_blob rewrote an existing blob");
+            assert!(writes() == 0, "write_blob rewrote an existing blob");
         }
 
         /// read_blob returns Some(p) exactly for files of the shape header ++ p and None for every other byte string (length <= 24); never panics
@@ -93,7 +99,7 @@
             kani::assume(len <= MAXD);
             let data = &buf[..len];
             let s = store();
-            DISK.with(|d| *d.borrow_mut() = Some(data.to_vec()));
+            set_disk(Some(data.to_vec()));
             let got = s.read_blob("f");
             let shaped = len >= 8 && data[0] == b'V' && data[1] == b'F' && data[2] == b'R' && data[3] == b'G'
                 && data[4] == 2 && data[5] == 0 && data[6] == 0 && data[7] == 0;
@@ -108,7 +114,7 @@
         #[cfg_attr(kani, kani::proof)]
         pub fn blob_missing_is_miss() {
             let s = store();
-            DISK.with(|d| *d.borrow_mut() = None);
+            set_disk(None);
             assert!(s.read_blob("f").is_none());
         }
 
@@ -130,7 +136,7 @@
             let len: usize = kani::any();
             kani::assume(len <= MAXD);
             let s = store();
-            DISK.with(|d| *d.borrow_mut() = Some(buf[..len].to_vec()));
+            set_disk(Some(buf[..len].to_vec()));
             assert!(s.read_blob("f").is_none());
         }
     }
